@@ -99,7 +99,8 @@ class Gen:
             a = r.choice(["USD", "EUR/2", "COIN", "A/B/9", "X"])
             return lambda p: self._leaf(p, a, lambda R: "(asset %s %s)" % (R, enc(a)))
         if k == "str":
-            s = r.choice(["", "hello", "a b", "é", "日本", "x\\\"y", "// not a comment", "/* nor this */", "🙂"])
+            s = r.choice(["", "hello", "a b", "é", "日本", "x\\\"y", "// not a comment", "/* nor this */", "🙂",
+                          "say \\\"hi\\\"", "\\\"", "\\\"\\\"", "\\\"lead", "trail\\\"", " ", "  pad  ", "'"])
             return lambda p: self._leaf(p, '"%s"' % s, lambda R: "(str %s %s)" % (R, enc(s)))
         if k == "acct":
             a = r.choice(["a", "world", "users:001", "a-b_c:D-9", "x:y:z", "W0rld"])
